@@ -20,6 +20,16 @@ var defaultPatterns = []string{
 	"./pkg/common/...", "./pkg/podgroupcontroller/...", "./pkg/queuecontroller/...", "./pkg/apis/...",
 }
 
+// extraPatterns: packages loaded only for the named property's check, so that the closed world (interface dispatch,
+// stable families) of every other property is exactly what it was.
+var extraPatterns = map[string][]string{
+	"C20": {"./pkg/operator/operands/known_types"},
+}
+
+func patternsFor(prop string) []string {
+	return append(append([]string{}, defaultPatterns...), extraPatterns[prop]...)
+}
+
 func main() {
 	if len(os.Args) < 2 {
 		fmt.Fprintln(os.Stderr, "usage: govc check|dump|list ...")
@@ -148,7 +158,7 @@ func cmdCheck(args []string) int {
 			overlay[k] = b
 		}
 	}
-	w, err := loadWorld(defaultPatterns, overlay)
+	w, err := loadWorld(patternsFor(*prop), overlay)
 	if err != nil {
 		fmt.Printf("UNDECIDED property=%s reason=load-failed: %v\n", *prop, err)
 		return 2
